@@ -109,6 +109,8 @@ impl<M: TreeKey + ?Sized, N, const D: usize> NodeIter<M, N, D> {
     ///
     /// This requires moving `self` to ensure `FusedIterator`.
     pub fn root<K: IntoKeys>(mut self, root: K) -> Result<Self, Traversal> {
+        // Discard indices of a previous root or of previous iteration
+        self.state = [0; D];
         let node = self.state.transcode::<M, _>(root)?;
         self.root = node.depth();
         self.depth = D + 1;
